@@ -53,7 +53,7 @@ static const unsigned char PKCS1Dig_MD2[] =
 };
 static const unsigned char PKCS1Dig_MD2_ALT[] =
 {
-    0x30, 0x20, 0x30, 0x0c, 0x06, 0x08, 0x2a, 0x86, 0x48, 0x86,
+    0x30, 0x1e, 0x30, 0x0a, 0x06, 0x08, 0x2a, 0x86, 0x48, 0x86,
     0xf7, 0x0d, 0x02, 0x02, 0x04, 0x10
 };
 #  endif /* USE_MD2 */
@@ -66,7 +66,7 @@ static const unsigned char PKCS1Dig_MD5[] =
 };
 static const unsigned char PKCS1Dig_MD5_ALT[] =
 {
-    0x30, 0x20, 0x30, 0x0c, 0x06, 0x08, 0x2a, 0x86, 0x48, 0x86,
+    0x30, 0x1e, 0x30, 0x0a, 0x06, 0x08, 0x2a, 0x86, 0x48, 0x86,
     0xf7, 0x0d, 0x02, 0x05, 0x04, 0x10
 };
 #  endif /* USE_MD5 */
